@@ -1168,6 +1168,161 @@ def run_witnesses(ctx):
 
 
 # ---------------------------------------------------------------------------------------------------
+# ------------------------------------------------------------------------------------------------
+# directed templates: operands that were CONFIGURED (actions, conditions, names, ignorables) before they are copied or
+# composed.  The statement: "a copy parses identically to its original", "composing never changes how the operands
+# parse", "a + ... + b == a + SkipTo(b)('_skipped*') + b".  Body whitespace is the default everywhere (the registered
+# difference forward_copy_before_assignment concerns only whitespace flags of a copy taken before `<<=`).
+# ------------------------------------------------------------------------------------------------
+def _cfg_actions(pp, kind):
+    """non-idempotent actions / conditions: running them twice (or not at all) shows in the tokens"""
+    if kind == "bang":
+        return lambda e: e.add_parse_action(lambda t: [x + "!" for x in t])
+    if kind == "dup":
+        return lambda e: e.add_parse_action(lambda t: list(t) + list(t))
+    if kind == "count":
+        def f(e):
+            box = []
+            e.add_parse_action(lambda t: (box.append(1), [f"{x}#{len(box)}" for x in t])[1])
+            return e
+        return f
+    if kind == "cond":
+        def f(e):
+            box = []
+            e.add_condition(lambda t: (box.append(1), len(box) % 2 == 1)[1])   # true on odd calls only
+            return e
+        return f
+    if kind == "name":
+        return lambda e: e.set_name("cfg")
+    raise KeyError(kind)
+
+
+def directed_copy_cases(pp):
+    """(description, build) ; build() -> (original, copy) both parsed on the same inputs, fresh objects per call"""
+    W = lambda: pp.Word("ab")
+    N = lambda: pp.Word("01")
+    out = []
+    for cfg in ("bang", "dup", "count", "cond", "name"):
+        for how in ("copy", "call", "named", "set_results_name", "in-And", "in-MatchFirst"):
+            for when in ("unassigned", "assigned"):
+                def build(cfg=cfg, how=how, when=when):
+                    def one():
+                        F = pp.Forward()
+                        if when == "assigned":
+                            F <<= W() + pp.Opt(N())
+                        _cfg_actions(pp, cfg)(F)
+                        return F
+                    F = one()
+                    G = one()            # the "original" side is never copied: an untouched twin built the same way
+                    if how == "copy":
+                        C = F.copy()
+                    elif how == "call":
+                        C = F()
+                    elif how == "named":
+                        C = F("n")
+                    elif how == "set_results_name":
+                        C = F.set_results_name("n")
+                    elif how == "in-And":
+                        C = (F + pp.Empty()).copy()
+                        G = G + pp.Empty()
+                    else:
+                        C = (F | pp.NoMatch()).copy()
+                        G = G | pp.NoMatch()
+                    if how in ("named", "set_results_name"):
+                        pass
+                    if when == "unassigned":
+                        F <<= W() + pp.Opt(N())
+                        Gf = G if how in ("copy", "call", "named", "set_results_name") else G.exprs[0]
+                        Gf <<= W() + pp.Opt(N())
+                    return G, C, F
+                out.append((f"Forward {when}, configured with {cfg}, copied by {how}", build))
+    return out
+
+
+def directed_skip_cases(pp):
+    """a + ... + b against the documented spelling, with a configured anchor; and b before / after the composition"""
+    out = []
+    for ign in ("c", "#", "lit"):
+        def build(ign=ign):
+            def anchor():
+                a = pp.Literal("start")
+                a.ignore({"c": pp.c_style_comment, "#": pp.python_style_comment, "lit": pp.Literal("~")}[ign])
+                return a
+            b1, b2 = pp.Literal("end"), pp.Literal("end")
+            sugar = anchor() + ... + b1
+            spelled = anchor() + pp.SkipTo(b2)("_skipped*") + b2
+            return sugar, spelled, b1, pp.Literal("end")
+        out.append((f"a + ... + b, anchor a carries ignore({ign})", build))
+    return out
+
+
+DIRECTED_INPUTS = ["ab", "ab 01", " ab 01", "a", "01", "", "ab ab", "b 1 x"]
+SKIP_INPUTS = ["start /* the end */ real end", "start x end", "start end", "start # end\n z end", "start ~ end ~ end",
+               "start /* c */ end", "/* x */ end", "# c\nend", "~end", "end", "start"]
+
+
+def run_directed(ctx):
+    pp = common.import_pyparsing()
+    n, bad = 0, 0
+    for desc, build in directed_copy_cases(pp):
+        for s in DIRECTED_INPUTS:
+            n += 1
+            try:
+                G, C, F = build()
+                want = outcome(pp, G, s, names=False)
+                got_c = outcome(pp, C, s, names=False)
+                got_f = None
+                if "with count" not in desc and "with cond" not in desc:   # stateful actions: state is shared by design
+                    G, C, F = build()
+                    outcome(pp, C, s, names=False)      # using the copy must not change the original either
+                    got_f = outcome(pp, F, s, names=False)
+            except Exception as ex:  # noqa: a constructor that raises is reported through the outcomes below
+                want, got_c, got_f = "built", ["internal", type(ex).__name__], None
+            for what, got in (("copy", got_c), ("original after the copy was used", got_f)):
+                if got is not None and got != want and bad < 3:
+                    bad += 1
+                    ctx.fail_input("a copy of a configured expression does not parse like the original",
+                                   {"kind": "directed-copy", "desc": desc, "input": s, "which": what}, want, got,
+                                   theorem="PP.Parse.copy_equiv (value semantics of copy(); oracle on the real objects)")
+    for desc, build in directed_skip_cases(pp):
+        for s in SKIP_INPUTS:
+            n += 1
+            sugar, spelled, b_used, b_fresh = build()
+            o1, o2 = outcome(pp, sugar, s), outcome(pp, spelled, s)
+            o3, o4 = outcome(pp, b_used, s, names=False), outcome(pp, b_fresh, s, names=False)
+            if o1 != o2 and bad < 3:
+                bad += 1
+                ctx.fail_input("a + ... + b differs from a + SkipTo(b)('_skipped*') + b",
+                               {"kind": "directed-skip", "desc": desc, "input": s, "which": "sugar"}, o2, o1,
+                               theorem="PP.Parse.sim_parse_eq (sugar = spelled-out form; oracle on the real objects)")
+            if o3 != o4 and bad < 3:
+                bad += 1
+                ctx.fail_input("building a + ... + b changed how the operand b parses",
+                               {"kind": "directed-skip", "desc": desc, "input": s, "which": "operand"}, o4, o3,
+                               theorem="PP.Parse.frame (composition never changes an operand; oracle on the real objects)")
+    ctx.count_cases("oracle:directed-configured-operands", n,
+                    distinct_keys=[d for d, _ in directed_copy_cases(pp)] + [d for d, _ in directed_skip_cases(pp)],
+                    outcomes={"cases": n, "problems": bad})
+
+
+def replay_directed(c):
+    pp = common.import_pyparsing()
+    s = c["input"]
+    if c["kind"] == "directed-copy":
+        build = dict(directed_copy_cases(pp))[c["desc"]]
+        G, C, F = build()
+        want = outcome(pp, G, s, names=False)
+        if c["which"] == "copy":
+            return outcome(pp, C, s, names=False) != want
+        outcome(pp, C, s, names=False)
+        return outcome(pp, F, s, names=False) != want
+    build = dict(directed_skip_cases(pp))[c["desc"]]
+    sugar, spelled, b_used, b_fresh = build()
+    if c["which"] == "sugar":
+        return outcome(pp, sugar, s) != outcome(pp, spelled, s)
+    return outcome(pp, b_used, s, names=False) != outcome(pp, b_fresh, s, names=False)
+
+
 def run(ctx):
     common.import_pyparsing()
     ctx.proof_leg("PPProofs.Props.C12", THEOREMS)
@@ -1191,6 +1346,7 @@ def run(ctx):
         "inputs sampled from the live objects with leading/interior blanks and '#' comment text; "
         "non-trivial = distinct history seed")
     run_witnesses(ctx)
+    run_directed(ctx)
     # PART A
     sj = gen_sugar_jobs(ctx, ctx.budget(60, 500))
     bad_shape, mism = run_sugar(ctx, sj)
@@ -1231,6 +1387,8 @@ def replay(data):
         if k == "mut":
             from . import c12_hist
             return bool(c12_hist.replay_hist(c))
+        if k in ("directed-copy", "directed-skip"):
+            return bool(replay_directed(c))
         if k == "witness":
             for sig, fn, _ in WITNESSES:
                 if sig == c["witness"]:
